@@ -14,6 +14,7 @@ pub(crate) struct Mixer {
 	sub_tracks: ResourceStorage<Track>,
 	send_tracks: ResourceStorage<SendTrack>,
 	temp_buffer: Vec<Frame>,
+	sample_rate: u32,
 }
 
 impl Mixer {
@@ -40,6 +41,7 @@ impl Mixer {
 				sub_tracks,
 				send_tracks,
 				temp_buffer: vec![Frame::ZERO; internal_buffer_size],
+				sample_rate,
 			},
 			sub_track_controller,
 			send_track_controller,
@@ -48,6 +50,7 @@ impl Mixer {
 	}
 
 	pub fn on_change_sample_rate(&mut self, sample_rate: u32) {
+		self.sample_rate = sample_rate;
 		self.main_track.on_change_sample_rate(sample_rate);
 		for (_, track) in &mut self.sub_tracks {
 			track.on_change_sample_rate(sample_rate);
@@ -61,12 +64,12 @@ impl Mixer {
 		self.sub_tracks
 			.remove_and_add(|track| track.should_be_removed());
 		for (_, track) in &mut self.sub_tracks {
-			track.on_start_processing();
+			track.on_start_processing(self.sample_rate);
 		}
 		self.send_tracks
 			.remove_and_add(|track| track.shared().is_marked_for_removal());
 		for (_, track) in &mut self.send_tracks {
-			track.on_start_processing();
+			track.on_start_processing(self.sample_rate);
 		}
 		self.main_track.on_start_processing();
 	}
